@@ -1,8 +1,9 @@
 (* C01 - the content store returns exactly the bytes that were stored.
-   Statements only; proofs are in Proofs/CafsWriter.v and Proofs/CafsReader.v.
-   H is an arbitrary hash function, L any positive leaf size. *)
+   Statements only; proofs are in Proofs/CafsWriter.v, CafsPut.v, CafsReadAt.v, CafsReadSeq*.v,
+   CafsWriteTo.v, CafsRoundTrip.v.  H is any hash with 64-byte digests, L any positive leaf size. *)
 From Coq Require Import List NArith Arith Bool.
-From DM Require Import Model.Cafs Proofs.CafsWriter.
+From DM Require Import Model.Cafs Proofs.CafsWriter Proofs.CafsStore Proofs.CafsPut Proofs.CafsRoundTrip
+  Proofs.CafsExample.
 Import ListNotations.
 
 (* Whatever chunks the source hands over and whatever the store holds: Put terminates, reports
@@ -27,3 +28,35 @@ Print Assumptions C01_chunking_irrelevant.
 Theorem C01_layout : forall L, 0 < L -> forall c, concat (split_leaves L c) = c.
 Proof. exact split_leaves_concat. Qed.
 Print Assumptions C01_layout.
+
+(* The full statement.  For every chunking of the source, every store that does not already hold
+   a conflicting non-empty blob under one of the object's keys (clean), and a hash none of whose
+   honest inputs for this content collides with any other input (nocoll): Put succeeds and
+   reports the content length; ReadAt returns the requested window for every offset and length
+   (past EOF: nothing); sequential Read with any positive buffer sizes and any legal behaviour of
+   the leaf streams delivers exactly the content; WriteTo through a WriterAt, leaves copied in any
+   order, leaves exactly the content in the destination. *)
+Theorem C01_roundtrip : forall H L, 0 < L ->
+  (forall l o d b x, length (H l o d b x) = KS) ->
+  forall chunks s,
+  nocoll H L (split_leaves L (concat chunks)) ->
+  clean s (blob_writes H L (split_leaves L (concat chunks))) ->
+  exists r, put H L chunks s = Ok r /\
+    let c := concat chunks in let s' := pr_store r in let key := pr_key r in
+    pr_written r = length c /\
+    (forall off want, read_at H L key s' off want = Ok (firstn want (skipn off c))) /\
+    (forall bufs orc, Forall (fun k => 0 < k) bufs -> length c < length bufs ->
+       read_seq H L key s' bufs orc = Ok c) /\
+    (forall jobs, (forall j, In j jobs <-> In j (index_from 0 (pr_keys r))) ->
+       exists f', write_to_at H L s' (length (pr_keys r)) jobs [] = Ok f' /\
+                  forall x, file_get f' x = nth_error c x).
+Proof. exact cafs_roundtrip. Qed.
+Print Assumptions C01_roundtrip.
+
+(* the premises are satisfiable: a concrete 64-byte hash, content and store meet them *)
+Theorem C01_premises_satisfiable :
+  (forall l o d b x, length (H0 l o d b x) = KS) /\
+  nocoll H0 2 (split_leaves 2 c0) /\
+  clean [] (blob_writes H0 2 (split_leaves 2 c0)).
+Proof. exact hypotheses_satisfiable. Qed.
+Print Assumptions C01_premises_satisfiable.
